@@ -432,7 +432,7 @@ fn gen_world(rng: &mut Rng, cfg: &WCfg) -> World {
 	// ---- the class universe as seen from `from` ----
 	let mut nodes: Vec<S> = m.classes.iter().map(|r| r.names[from].clone().unwrap_or_else(|| r.names[0].clone().unwrap())).collect();
 	for u in UNMAPPED.iter().take(rng.range(1, 3)) { nodes.push(s(u)); }
-	nodes.dedup();
+	{ let mut d: Vec<S> = vec![]; for x in nodes { if !d.contains(&x) { d.push(x); } } nodes = d; }
 	let mut order: Vec<usize> = (0..nodes.len()).collect(); rng.shuffle(&mut order);
 	// edges only from earlier to later positions of `order`: acyclic by construction
 	let mut inh: Vec<(S, Vec<S>)> = vec![];
@@ -447,14 +447,13 @@ fn gen_world(rng: &mut Rng, cfg: &WCfg) -> World {
 			       else if let Some(&j) = later.first() { sup.push(nodes[j].clone()); } }
 			_ => { for &j in &later { if rng.chance(2, 5) && sup.len() < 3 { sup.push(nodes[j].clone()); } } }
 		}
-		if rng.chance(1, 4) { sup.push(s("java/lang/Object")); }
+		if rng.chance(1, 4) { sup.push(s("ext/Root")); }
 		if rng.chance(1, 10) { sup.insert(0, s("not/in/Provider")); }
 		let mut ded: Vec<S> = vec![]; for x in sup { if !ded.contains(&x) && x != nodes[i] { ded.push(x); } }
 		// the last node of the order is "java/lang/Object"-like: sometimes without an entry at all
 		if ded.is_empty() && rng.chance(1, 2) { continue; }
 		inh.push((nodes[i].clone(), ded));
 	}
-	// "java/lang/Object" must not point back into the graph: it never has an entry of its own unless it is a node
 	rng.shuffle(&mut inh);
 	let provs: Vec<Vec<(S, Vec<S>)>> = if rng.chance(1, 3) && inh.len() >= 2 {
 		let cut = rng.range(1, inh.len() - 1);
